@@ -6,7 +6,31 @@ EXTENDS IdentityView, TLCExt, Json, IOUtils
 TraceLog == JsonDeserialize(IOEnv.TRACE_FILE)
 N == Len(TraceLog)
 
-Judge(e) ==
+\* discover(): one ListIdentity reply datagram per device; replies that are cut short or carry an encapsulation error are
+\* not devices; the result lists the identities of the good replies in arrival order, whatever came before them
+ReplyFrame(i) == LET item == ListIdentityItem(i)  body == LE(1, 2) \o LE(12, 2) \o LE(Len(item), 2) \o item
+                 IN Header(CmdListId, Len(body), Zero4, Zero4, Zeros(8)) \o body
+Damage(b, d) == IF d.kind = "good" THEN b
+                ELSE IF d.kind = "trunc" THEN SubSeq(b, 1, d.n)
+                ELSE SubSeq(b, 1, 8) \o LE(d.n, 4) \o SubSeq(b, 13, Len(b))            \* "status": encapsulation status d.n # 0
+RECURSIVE DiscoverClause(_, _, _, _)
+DiscoverClause(ds, out, j, k) ==
+    IF j > Len(ds) THEN (IF k = Len(out) + 1 THEN "ok" ELSE "C16:discover-extra")
+    ELSE IF ds[j].kind # "good" THEN DiscoverClause(ds, out, j + 1, k)
+    ELSE IF k > Len(out) THEN "C16:discover-missing"
+    ELSE LET c == IdentityClause(ds[j].ident, out[k], TRUE) IN IF c # "" THEN c ELSE DiscoverClause(ds, out, j + 1, k + 1)
+JudgeDiscover(e) ==
+    IF \E j \in 1..Len(e.dgrams) : e.dgrams[j].bytes # Damage(ReplyFrame(e.dgrams[j].ident), e.dgrams[j]) THEN "MACHINERY:discover-bytes"
+    ELSE IF e.out.kind # "val" \/ ~IsL(e.out.v) THEN "C16:discover-failed"
+    ELSE DiscoverClause(e.dgrams, e.out.v.l, 1, 1)
+
+\* an identity object that is not at the start of the buffer: after other data, as a structure member, as an array element
+JudgePos(e) ==
+    IF e.out.kind # "val" \/ ~IsL(e.out.v) \/ Len(e.out.v.l) # Len(e.idents) THEN "C16:decode-failed"
+    ELSE LET cs == [j \in 1..Len(e.idents) |-> IdentityClause(e.idents[j], e.out.v.l[j], FALSE)] IN
+         IF \E j \in 1..Len(cs) : cs[j] # "" THEN cs[CHOOSE j \in 1..Len(cs) : cs[j] # ""] ELSE "ok"
+
+JudgeIdent(e) ==
     LET i == e.ident
         item == ListIdentityItem(i)
         wire == IF e.list = 1 THEN LE(12, 2) \o LE(Len(item), 2) \o item ELSE IdentityCore(i)
@@ -16,6 +40,10 @@ Judge(e) ==
             IF c # "" THEN c
             ELSE IF e.rt.kind = "skip" THEN "ok"
             ELSE IF e.rt.kind = "val" /\ TermEq(e.rt.v, e.out.v) THEN "ok" ELSE "C16:roundtrip"     \* decode(encode(d)) = d
+
+Judge(e) == CASE e.op = "discover" -> JudgeDiscover(e)
+              [] e.op = "pos" -> JudgePos(e)
+              [] OTHER -> JudgeIdent(e)
 
 VARIABLE k
 Init == k = 1
